@@ -56,8 +56,13 @@ impl Recorder {
     pub fn new(path: &str, seed: u64) -> Recorder {
         *PROGRESS.lock().unwrap() = Some((std::time::Instant::now(), 0, path.to_string()));
         start_record_watchdog();
+        let file = std::fs::File::create(path).unwrap();
+        {
+            use std::os::unix::io::AsRawFd;
+            crate::crash::install_recorder(file.as_raw_fd());
+        }
         Recorder {
-            out: std::io::BufWriter::new(std::fs::File::create(path).unwrap()),
+            out: std::io::BufWriter::new(file),
             n: 0,
             keys: Keys::load(),
             or: Oracles::load(),
@@ -69,6 +74,7 @@ impl Recorder {
         writeln!(self.out, "{}", serde_json::to_string(&v).unwrap()).unwrap();
         let _ = self.out.flush();
         self.n += 1;
+        crate::crash::recorder_progress(self.n);
         if let Some(p) = PROGRESS.lock().unwrap().as_mut() {
             p.0 = std::time::Instant::now();
             p.1 = self.n;
@@ -599,6 +605,42 @@ impl Recorder {
         Some((last, raw))
     }
 
+    /// (number of (typed word, hit) pairs where a longer hit precedes the typed word's own entry in its table,
+    ///  number of (typed prefix, duplicated word) pairs whose two entries are separated by another hit)
+    /// - with the search pattern of the statement: the typed word followed by 0 / 1 / 5 more letters for 1 / 2-3 / 4+ letters.
+    fn dict_order_facts(&self) -> (u64, u64) {
+        let letter = |c: char| ('\u{0981}'..='\u{09E1}').contains(&c) && !('\u{09E6}'..='\u{09EF}').contains(&c);
+        let upto = |n: usize| if n <= 1 { 0 } else if n <= 3 { 1 } else { 5 };
+        let matches = |p: &[char], w: &[char]| w.len() >= p.len() && w[..p.len()] == *p && w.len() - p.len() <= upto(p.len()) && w[p.len()..].iter().all(|c| letter(*c));
+        let (mut exact_first, mut split_dups) = (0u64, 0u64);
+        for ws in self.or.dict.values() {
+            let cs: Vec<Vec<char>> = ws.iter().map(|w| w.chars().collect()).collect();
+            let mut pos: std::collections::HashMap<&[char], Vec<usize>> = std::collections::HashMap::new();
+            for (i, w) in cs.iter().enumerate() {
+                pos.entry(w.as_slice()).or_default().push(i);
+            }
+            for (i, w) in cs.iter().enumerate() {
+                for k in 1..w.len() {
+                    if let Some(ps) = pos.get(&w[..k]) {
+                        if matches(&w[..k], w) && ps.iter().any(|j| *j > i) {
+                            exact_first += 1;
+                        }
+                    }
+                }
+            }
+            for (w, ps) in &pos {
+                for pair in ps.windows(2) {
+                    for k in 1..=w.len() {
+                        if matches(&w[..k], w) && cs[pair[0] + 1..pair[1]].iter().any(|x| x.as_slice() != *w && matches(&w[..k], x)) {
+                            split_dups += 1;
+                        }
+                    }
+                }
+            }
+        }
+        (exact_first, split_dups)
+    }
+
     pub fn driver_fcands(&mut self, shard: usize, shards: usize, quick: bool) {
         let mk = |kar: bool, smart: bool, english: bool, ansi: bool| Cfg {
             layout: "probhat".into(), fsug: true, english, ansi, smart, vowel: true, chandra: true, kar, reph: true, db: true, ..Default::default()
@@ -646,6 +688,12 @@ impl Recorder {
                     }
                 }
             }
+        }
+        // the two facts about the DATA that MC_FixedList!DataOK assumes (the list's de-duplication is consecutive-only):
+        // checked on the dictionary as read here, validated by Trace_Cands!DictFacts
+        if shard == 0 {
+            let (exact_first, split_dups) = self.dict_order_facts();
+            self.emit(json!({"ev": "dictfacts", "exact_first": exact_first, "split_dups": split_dups}));
         }
         let mut names: Vec<String> = self.or.bn_emoji_names.keys().map(|s| s.to_string()).collect();
         names.sort();
@@ -888,10 +936,74 @@ impl Recorder {
         }
     }
 
+    /// C04 beyond single keys: every published key pressed twice in a row inside one word under every pair of modifier
+    /// patterns (the plane is chosen per key press, nothing of the previous press may decide it), and after another key;
+    /// all composition helpers off, suggestions off and on, both layout files.  Emitted as ordinary session events.
+    fn key_pairs(&mut self, shard: usize, shards: usize) {
+        let all: Vec<u16> = self.keys.codes.iter().map(|k| k.code).collect();
+        let mods: [u8; 5] = [0, 1, 2, 3, 0x82];
+        let other = self.keys.code_for_char('t').unwrap_or(all[0]);
+        let mut n = 0usize;
+        for layout in ["probhat", "synth"] {
+            for sug in [false, true] {
+                n += 1;
+                if n % shards.max(1) != shard % shards.max(1) {
+                    continue;
+                }
+                let cfg = Cfg { layout: layout.into(), fsug: sug, english: sug, smart: false, vowel: false, chandra: false, kar: false, reph: false,
+                                numpad: true, karorder: false, db: true, ..Default::default() };
+                let j = json!({"method": "fixed", "layout": layout, "sug": sug, "numpad": true,
+                               "o": {"vowel": false, "chandra": false, "kar": false, "reph": false, "karorder": false}});
+                clean_home(&self.home);
+                let mut ctx = match Ctx::new(&cfg, &self.home) {
+                    Ok(c) => c,
+                    Err(_) => continue,
+                };
+                self.emit(json!({"ev": "new", "cfg": j}));
+                for code in &all {
+                    for (i1, m1) in mods.iter().enumerate() {
+                        for (i2, m2) in mods.iter().enumerate() {
+                            if i1 == i2 && (i1 + *code as usize) % 3 != 0 {
+                                continue;
+                            }
+                            // [other key,] key with m1, key with m2, finish
+                            let lead = (i1 + i2) % 2 == 1;
+                            let mut seq: Vec<(u16, u8)> = Vec::new();
+                            if lead {
+                                seq.push((other, 0));
+                            }
+                            seq.push((*code, *m1));
+                            seq.push((*code, *m2));
+                            let mut dead = false;
+                            for (c, m) in seq {
+                                let o = ctx.key(c, m, 0);
+                                let mut e = json!({"ev": "key", "code": c, "mod": m, "sel": 0});
+                                for (k, v) in Self::ret_fields(&o).as_object().unwrap() {
+                                    e[k] = v.clone();
+                                }
+                                self.emit(e);
+                                if o.kind == "panic" {
+                                    dead = true;
+                                    break;
+                                }
+                            }
+                            if dead {
+                                return;
+                            }
+                            let o = ctx.finish();
+                            self.emit(json!({"ev": "finish", "ongoing": o.ongoing, "panic": o.panic.clone().unwrap_or_default()}));
+                        }
+                    }
+                }
+            }
+        }
+    }
+
     pub fn driver_session(&mut self, rounds: usize, shard: usize, shards: usize) {
         let letters: Vec<u16> = "abcdefghijklmnopqrstuvwxyzABDGHJKNOSTZ".chars().filter_map(|c| self.keys.code_for_char(c)).collect();
         let all: Vec<u16> = self.keys.codes.iter().map(|k| k.code).collect();
         self.long_runs(shard, shards);
+        self.key_pairs(shard, shards);
         for _ in 0..rounds {
             clean_home(&self.home);
             let (mut cfg, j) = self.sess_cfg();
